@@ -153,12 +153,15 @@ static void enum_rec(struct frame *todo)
 static void spines(int maxk)
 {
 	for (int k = 0; k <= maxk; k++)
-		for (int side = 0; side < 2; side++) {
-			n = 2 * k + 1;
-			for (int i = 1; i <= n; i++) { L[i] = R[i] = 0; ISL[i] = i <= k; }
+		for (int side = 0; side < 4; side++) {
+			/* 0: left-leaning; 1: right-leaning closed by an element; 2: right-leaning closed by a childless list node
+			 * (cons style "nil"); 3: right-leaning closed by a NULL pointer */
+			if (side == 3 && k == 0) continue;
+			n = side == 3 ? 2 * k : 2 * k + 1;
+			for (int i = 1; i <= n; i++) { L[i] = R[i] = 0; ISL[i] = i <= k || (side == 2 && i == 2 * k + 1); }
 			for (int i = 1; i <= k; i++) {
 				if (side == 0) { L[i] = i < k ? i + 1 : 2 * k + 1; R[i] = k + i; }
-				else { L[i] = k + i; R[i] = i < k ? i + 1 : 2 * k + 1; }
+				else { L[i] = k + i; R[i] = i < k ? i + 1 : (side == 3 ? 0 : 2 * k + 1); }
 			}
 			run_mode("list");
 			for (int i = 1; i <= n; i++) ISL[i] = 0;
